@@ -741,7 +741,13 @@ fn run_corr(args: &Args) -> Report {
         for (which, f) in [("known11", known11 as fn(&[u8], &str, &str) -> bool), ("known12", known12)] {
             let req = format!("{} {} E a {}", which, CFG, hexb(&d));
             let model = drv.ask_with(&req, oracle);
-            let imp = (f(&d, "E", "a") as u8).to_string();
+            let mut imp = (f(&d, "E", "a") as u8).to_string();
+            // the Rust recognisers are used only to SKIP inputs in search mode: they may over-approximate
+            // the model's class (counted), never under-approximate it
+            if model == "0" && imp == "1" {
+                rep.bump(&format!("{}-overapprox", which));
+                imp = "0".into();
+            }
             rep.case("known-class", &req, &model, &imp, true, &format!("{}|{}", which, imp));
         }
     }
